@@ -24,6 +24,10 @@ CLAIMED["C11"] = ("model_checking", "5 C11",
     "The real str_util/util functions run on fully symbolic short texts (every code point / byte value, width table abstracted to any function into {0,1,2}); "
     "additivity, offset-search, next/prev, trim and encoding assertions discharged per path with unbounded target columns.",
     "z3 trusted; text length <= 3 quick / 5 thorough; wcwidth's own tables trusted (urwid delegates to wcwidth).")
+CLAIMED["C03"] = ("model_checking", "5 C03",
+    "The real StandardTextLayout / Text.rows / Text.pack / Text.render run on fully symbolic short texts with an unbounded symbolic width; order, coverage, fit, "
+    "fill, alignment and line-count assertions are discharged on every path.",
+    "z3 trusted; text length <= 3 quick / 5 thorough; width table abstracted (any function into {0,1,2} agreeing with wcwidth on ASCII/C0/C1 and a few named characters).")
 NOT_YET = {}
 TECH = "bounded symbolic execution of the real urwid code (AST-lifted import of /repo) with z3 deciding every path obligation; counterexamples replayed on the un-lifted code"
 def main():
